@@ -7,8 +7,9 @@
    rest  : the remainder of each routine after its first step, ANY function of the value the
            first step produced;  whole: a routine on inputs this layer does not open;
    sup   : ANY set of exception kinds on which a Union routine goes on to its next member.
-   The model (Model/Serdes.v) mirrors the repaired serdes.strload; entry_pinned / load_gen false
-   are the same definitions without the repair. *)
+   The model (Model/Serdes.v) mirrors the repaired serdes.strload (carriers normalised, decoded, and only the
+   TEXT handed to the JSON decoder: no law about the decoder on bytes is needed any more); entry_pinned /
+   load_gen false are the pinned code, load_rawjson the code between the two repairs (Props/C14Json.v). *)
 From Coq Require Import List ZArith NArith Bool.
 Import ListNotations.
 Require Import TL.Model.Serdes TL.Model.SerdesToy TL.Proofs.SerdesLemmas.
@@ -56,14 +57,18 @@ Theorem C14_literal_text : forall rt, RuntimeLaws rt -> forall rest whole sup h 
   entry rt rest whole sup h (carrier rt k (py_repr rt m)) = entry rt rest whole sup h m.
 Proof. intros rt L rest whole sup h k m H1 H2 H3 H4 H5. exact (entry_literal_text rt L rest whole sup h k m H1 H2 H3 H4 H5). Qed.
 
-(* load / strload return what the JSON decoder returns for JSON text, in every carrier;
-   for bytes-like input of any content strload returns what the decoder returns for those bytes *)
+(* load / strload return what the JSON decoder returns for JSON text, in every carrier; for bytes-like input of
+   any content strload returns what the decoder returns for the text the bytes decode to, and raises the codec's
+   error when they are not UTF-8 (the decoder is never handed the bytes: C14-strload-decode-first.diff) *)
 Theorem C14_load_json : forall rt, RuntimeLaws rt ->
   (forall k s r, encodable s = true -> json_loads_str rt s = Ok r ->
      load rt (carrier rt k s) = Ok r /\
      match carrier rt k s with PText k' p => strload rt k' p = Ok r | _ => False end) /\
-  (forall k b r, is_bin k = true -> json_loads_bin rt b = Ok r -> strload rt k b = Ok r).
-Proof. intros rt L. split; [exact (load_json rt L) | exact (strload_json_bin rt)]. Qed.
+  (forall k b s r, is_bin k = true -> utf8_decode rt b = Ok s -> json_loads_str rt s = Ok r -> strload rt k b = Ok r) /\
+  (forall k b e, is_bin k = true -> utf8_decode rt b = Raise e -> strload rt k b = Raise e).
+Proof.
+  intros rt L. split; [exact (load_json rt L) | split; [exact (strload_json_bin rt) | exact (strload_undecodable rt)]].
+Qed.
 
 (* text that the JSON decoder and literal_eval both reject comes back unchanged as str; no raise *)
 Theorem C14_load_plain_text : forall rt, RuntimeLaws rt -> forall k s e1 e2, encodable s = true ->
